@@ -161,3 +161,57 @@ func VC10_record() {
 	vrt.Assert(eok, "record: entryAt accepts what writeEntryAt wrote")
 	vrt.Assert(string(ename) == name && enext == nxt && ev.Load() == val, "record: entryAt returns name, next and value")
 }
+
+// VC10_readback: a file consisting of the header the writer builds for this metadata, an
+// empty hash table and a record for one counter is read back identically by Parse, for
+// metadata lengths around every padding boundary (a length that is a multiple of 32
+// leaves no padding byte at all) and at the cap.
+func VC10_readback() {
+	n := []int{0, 4, 31, 32, 33, 63, 64, 65, 480, 511, 512}[vrt.Choose(11)]
+	meta := ""
+	val := ""
+	if n >= 4 {
+		val = vrt.String(n - 4)
+		for i := 0; i < len(val); i++ {
+			vrt.Assume(val[i] != '\n' && val[i] != 0)
+		}
+		meta = "K: " + val + "\n"
+	}
+	hdr, err := mappedHeader(meta)
+	vrt.Assert(err == nil, "readback: metadata within the cap is accepted")
+	if err != nil {
+		return
+	}
+	hdrLen := len(hdr)
+	data := make([]byte, 16384) // files are whole pages
+	copy(data, hdr)
+	name := "cn" // concrete: a symbolic name makes the bucket, and with it every table read, symbolic
+	v := vrt.U64()
+	off := (hdrLen + vTableLen + 31) / 32 * 32
+	m := &mappedFile{hdrLen: uint32(hdrLen), mapping: &mmap.Data{Data: data}}
+	m.writeEntryAt(uint32(off), name)
+	vPut64(data, off, v)
+	vPut32(data, hdrLen+4+4*int(hash(name)), uint32(off))
+	vPut32(data, hdrLen, uint32(off+32))
+	f, err := Parse("f", data)
+	vrt.Assert(err == nil, "readback: Parse accepts the file the writer produced")
+	if err != nil {
+		return
+	}
+	if n >= 4 {
+		vrt.Assert(len(f.Meta) == 1 && f.Meta["K"] == val, "readback: metadata read back identically")
+	} else {
+		vrt.Assert(len(f.Meta) == 0, "readback: empty metadata read back as empty")
+	}
+	got, ok := f.Count[name]
+	vrt.Assert(len(f.Count) == 1 && ok && got == v, "readback: the counter is read back with its value")
+}
+
+func vPut32(b []byte, off int, v uint32) {
+	b[off], b[off+1], b[off+2], b[off+3] = byte(v), byte(v>>8), byte(v>>16), byte(v>>24)
+}
+
+func vPut64(b []byte, off int, v uint64) {
+	vPut32(b, off, uint32(v))
+	vPut32(b, off+4, uint32(v>>32))
+}
